@@ -505,12 +505,16 @@ type Axiom struct {
 }
 
 type Lemma struct {
-	Name    string
-	Params  []Param
-	Clauses []*Clause
-	Props   []string
-	File    string
-	Line    int
+	Name     string
+	Params   []Param
+	Clauses  []*Clause
+	Props    []string
+	Induct   string // induction variable (hypothesis at value-1)
+	Triggers []Expr
+	TrigText string
+	File     string
+	Line     int
+	Pkg      string
 }
 
 type TypeInv struct {
@@ -584,10 +588,35 @@ func parseParamList(s string) []Param {
 // splitSig parses "func (r *T) name(params) (results)" or "external pkg.(*T).M(params) (results)".
 func splitSig(sig string) (recv string, name string, params, results string, err error) {
 	s := strings.TrimSpace(sig)
-	if strings.HasPrefix(s, "(") { // receiver
+	if strings.HasPrefix(s, "(") { // receiver, unless it is a qualified name such as (*T).m$1
 		end := matchParen(s, 0)
 		if end < 0 {
 			return "", "", "", "", fmt.Errorf("bad receiver in %q", sig)
+		}
+		if end+1 < len(s) && s[end+1] == '.' {
+			// closure of a method: the whole "(*T).m$1" is the name
+			j := strings.IndexByte(s[end:], '(')
+			if j < 0 {
+				return "", strings.TrimSpace(s), "", "", nil
+			}
+			j += end
+			name = strings.TrimSpace(s[:j])
+			pe := matchParen(s, j)
+			if pe < 0 {
+				return "", "", "", "", fmt.Errorf("bad signature %q", sig)
+			}
+			params = s[j+1 : pe]
+			rest := strings.TrimSpace(s[pe+1:])
+			if strings.HasPrefix(rest, "(") {
+				e2 := matchParen(rest, 0)
+				if e2 < 0 {
+					return "", "", "", "", fmt.Errorf("bad results %q", sig)
+				}
+				results = rest[1:e2]
+			} else {
+				results = rest
+			}
+			return "", name, params, results, nil
 		}
 		recv = s[1:end]
 		s = strings.TrimSpace(s[end+1:])
@@ -760,6 +789,29 @@ func (ss *SpecSet) parseSpecText(file, pkgPath, text string) {
 			if curLemma != nil {
 				curLemma.Props = props
 			}
+		case "induct":
+			if curLemma != nil {
+				curLemma.Induct = strings.TrimSpace(rest)
+			}
+		case "trigger":
+			if curLemma != nil {
+				curLemma.TrigText = rest
+				for _, t := range splitTopLevelCommas(rest) {
+					e, err := parseExpr(strings.TrimSpace(t))
+					if err != nil {
+						errf(ln, "%v", err)
+						continue
+					}
+					curLemma.Triggers = append(curLemma.Triggers, e)
+				}
+			}
+		case "decreases":
+			finish()
+			if curLemma != nil {
+				cl := &Clause{Kind: "decreases", Text: rest, Props: props, Line: ln + 1, File: file}
+				curLemma.Clauses = append(curLemma.Clauses, cl)
+				last = cl
+			}
 		case "requires", "ensures", "assume", "defines":
 			finish()
 			cl := &Clause{Kind: word, Text: rest, Props: props, Line: ln + 1, File: file}
@@ -896,7 +948,7 @@ func (ss *SpecSet) parseSpecText(file, pkgPath, text string) {
 				errf(ln, "%v", err)
 				continue
 			}
-			curLemma = &Lemma{Name: name, Params: parseParamList(params), File: file, Line: ln + 1}
+			curLemma = &Lemma{Name: name, Params: parseParamList(params), File: file, Line: ln + 1, Pkg: pkgPath}
 			ss.Lemmas = append(ss.Lemmas, curLemma)
 			props = nil
 		default:
